@@ -24,7 +24,8 @@ theorem CS_inventory : all.map (·.name) =
      "config_setting_is_scalar", "config_setting_is_aggregate", "__config_type_is_scalar",
      "config_get_option", "config_set_option", "config_set_options", "config_get_options",
      "config_set_tab_width", "config_get_tab_width",
-     "config_set_float_precision", "config_get_float_precision"] := by decide
+     "config_set_float_precision", "config_get_float_precision",
+     "__config_list_checktype", "config_setting_length"] := by decide
 
 /-! ### getters: `(ok, *value)`; a failing getter leaves `*value` alone -/
 
@@ -99,6 +100,23 @@ theorem CS_is_aggregate (n : Node) (c : Config) (st : St) (h : Rep n c st) :
     exec src_config_setting_is_aggregate.body st = retI (if isAggregateTy n.ty then 1 else 0) st :=
   p_is_aggregate n c st h
 
+/-! ### the child list: the guard of array homogeneity, and the length
+
+Both functions dereference `setting->value.list` and `elements[0]`; the semantics answers `stuck`
+for a NULL pointer or an index beyond `length`, so these equations also say that the guards in
+front of those accesses are sufficient — for every setting, with a NULL list or not. -/
+
+/-- `__config_list_checktype(setting, type)` is `checkType`: true for an empty (or NULL) list and
+for a list; otherwise exactly when the FIRST child has that type. `config_setting_add`, the
+`set_*_elem` appends and the grammar's array action all go through this one test (C04). -/
+theorem CS_list_checktype (n : Node) (st : St) (h : RepKids n st) (t : Nat) (ht : t < 2147483648)
+    (harg : st.vars 1 = .i t) :
+    exec src_config_list_checktype.body st = retI (if checkType n t then 1 else 0) st :=
+  p_list_checktype n st h t ht harg
+
+theorem CS_length (n : Node) (st : St) (h : RepKids n st) :
+    exec src_config_setting_length.body st = retI n.length st := p_length n st h
+
 /-! ### configuration attributes -/
 
 /-- the body of `config_get_option` computes what the primitive `.call .getOption`
@@ -151,5 +169,15 @@ example : outcome (exec src_config_setting_get_int64.body
 example : Rep { ty := T_INT64, ival := 1099511627776 } { options := 22 }
     { sty := 3, raw := 1099511627776, opts := 22, outs := fun _ => .i 7 } := by
   constructor <;> decide
+
+/-- an array holding two ints: an int64 (type 3) is refused, an int (2) accepted; a NULL list accepts anything -/
+example : outcome (exec src_config_list_checktype.body
+    { sty := 7, kids := some [2, 2], vars := fun _ => .i 3, outs := fun _ => .i 7 }) = some (0, .i 7) := by decide
+example : outcome (exec src_config_list_checktype.body
+    { sty := 7, kids := some [2, 2], vars := fun _ => .i 2, outs := fun _ => .i 7 }) = some (1, .i 7) := by decide
+example : outcome (exec src_config_list_checktype.body
+    { sty := 7, kids := none, vars := fun _ => .i 3, outs := fun _ => .i 7 }) = some (1, .i 7) := by decide
+example : RepKids { ty := T_ARRAY, kids := [{ ty := T_INT }, { ty := T_INT }] } { sty := 7, kids := some [2, 2] } := by
+  constructor <;> simp [T_ARRAY, T_INT]
 
 end Libconfig.CSrc
